@@ -7,7 +7,9 @@ random prior state.  Compared with Paths.v (`run_paths`).  Keyed roots / sub-sch
 directly exercise F40, virtual and instance-method fields F27.
 
 Node encoding (plain data):
-  ("S", own_key, [(key, node), ...])   Schema
+  ("S", own_key, [(key, node), ...] [, {"env": False|True|str|None, "via": "attr"|"item"}])
+                                       Schema (optionally: constructed with an explicit env setting,
+                                       registered by attribute or by item assignment)
   ("T", node)                          ConfigTypeField(make_type(node))
   ("L", kind, params, default)         leaf: kind in str/int/float/bool/any/other/virtual/method
 """
@@ -27,6 +29,29 @@ KEYS = ["a", "b", "c", "d", "x", "y", "n", "port", "host", "a_b", "x_y", "Ab", "
         # keys whose option string has adjacent / trailing dashes after the '.'/'_' -> '-' mapping
         "a_", "b__c", "x_", "dry__run", "class_", "n__", "c_d_", "no__x", "Y_"]
 ROOT_KEYS = ["root", "app", "sub"]
+ENVS = [None, None, False, True, "X", "APP"]
+# public attribute names of Schema and of Config, used as field / sub-schema keys (filled by public_names())
+SCHEMA_PUBLIC = ["full_path", "generate_argparse_parser", "get_all_fields", "instance_method", "make_type", "validator"]
+CONFIG_PUBLIC = ["cmdline_args_override", "dumps", "full_path", "load", "load_tree", "loads", "save", "to_tree", "validate"]
+
+
+def public_names():
+    """taken from the classes at generation time: a new public member becomes a key candidate by itself"""
+    try:
+        from cincoconfig.core import Schema, Config
+        sp = [n for n in dir(Schema) if not n.startswith("_") and n.isidentifier() and n.islower()]
+        cp = [n for n in dir(Config) if not n.startswith("_") and n.isidentifier() and n.islower()]
+        return sorted(sp), sorted(cp)
+    except Exception:  # noqa
+        return SCHEMA_PUBLIC, CONFIG_PUBLIC
+
+
+def config_reserved():
+    return set(public_names()[1])
+
+
+def opts_of_node(n):
+    return n[3] if len(n) > 3 else {}
 
 
 # ------------------------------------------------------------------------------------------------
@@ -73,9 +98,10 @@ def gcase(c):
     ftab = g_list(sorted(c["ftab"].items()),
                   lambda kv: "(%s,%s)" % (gs(kv[0]), g_opt(kv[1], g_float)))
     argv = "None" if c["argv"] is None else "(Some %s)" % g_list(c["argv"], gs)
-    return "(mkcase %s %s %s %s %s %s %s %s)" % (
+    return "(mkcase %s %s %s %s %s %s %s %s %s)" % (
         g_list(c["chain"], gs), g_node(c["schema"]), ftab, g_list(c["extra"], gs),
-        g_list(c["sets"], g_sv), argv, g_list(c["ns"], g_sv), g_list(c["ignore"], gs))
+        g_list(c["sets"], g_sv), argv, g_list(c["ns"], g_sv), g_list(c["ignore"], gs),
+        g_list(c.get("reserved", []), gs))
 
 
 # ------------------------------------------------------------------------------------------------
@@ -153,6 +179,9 @@ def fix_other(n):
 def rschema(rng, own, depth, budget):
     fields = []
     keys = rng.sample(KEYS, rng.randint(1, 4))
+    if rng.random() < 0.3:
+        sp, cp = public_names()
+        keys[rng.randrange(len(keys))] = rng.choice(sp + cp)
     for k in keys:
         if budget[0] <= 0:
             break
@@ -164,9 +193,17 @@ def rschema(rng, own, depth, budget):
             t = ("S", "", [(kk, fix_other(rleaf(rng))) for kk in rng.sample(["n", "s", "t"], rng.randint(1, 2))])
             fields.append((k, ("T", t)))
         else:
-            fields.append((k, fix_other(rleaf(rng))))
+            leaf = fix_other(rleaf(rng))
+            if leaf[1] == "method" and k in config_reserved():
+                # an instance method is bound with object.__setattr__(cfg, key, ..): under the name of a Config
+                # property (full_path) building the configuration raises AttributeError -- config-member
+                # collision, outside C16's domain
+                leaf = ("L", "int", (None, None), 1)
+            fields.append((k, leaf))
     if not fields:
         fields.append(("x", ("L", "int", (None, None), 1)))
+    if rng.random() < 0.5:
+        return ("S", own, fields, {"env": rng.choice(ENVS), "via": rng.choice(["attr", "item"])})
     return ("S", own, fields)
 
 
@@ -213,6 +250,8 @@ def make_case(rng, schema, chain, mode=None):
          "ignore": [], "ignore_form": "list", "supplied": []}
     en = enum_paths(c)
     paths = [p for p, _ in en]
+    res = config_reserved()
+    c["reserved"] = sorted({k for p, _ in en for k in p.split(".") if k in res})
     # extra lookups: missing keys, trailing dots, the empty path, inside a config type
     extra = ["nope", ""]
     for p, n in en:
@@ -325,6 +364,24 @@ FIXED = [
                                                                  ("c_d_", L("float", (), 1.5))]))]))]),
     ("S", "", [("x_", ("S", "x_", [("y", L("bool", (), False)), ("Y_", L("int", (None, None), 1))])),
                ("no_", L("bool", (), True)), ("a", L("bool", (), True))]),
+    # sub-schemas created explicitly with every env setting, registered by attribute and by item
+    ("S", "", [("db", ("S", "db", [("host", L("str", (), "h")), ("port", L("int", (0, None), 5)),
+                                   ("tls", ("S", "tls", [("on", L("bool", (), True))], {"env": False, "via": "item"}))],
+                       {"env": False, "via": "attr"})),
+               ("web", ("S", "web", [("debug", L("bool", (), False)),
+                                     ("deep", ("S", "deep", [("n", L("int", (None, None), 1))], {"env": None, "via": "attr"}))],
+                        {"env": True, "via": "item"})),
+               ("q", ("S", "q", [("name", L("str", (), None))], {"env": "X", "via": "attr"}))],
+     {"env": "APP", "via": "item"}),
+    # keys that are public members of Schema / of Config
+    ("S", "", [("validator", L("int", (None, None), 1)), ("make_type", L("bool", (), True)),
+               ("upload", ("S", "upload", [("validator", L("str", (), "v")), ("get_all_fields", L("bool", (), None)),
+                                           ("full_path", L("int", (0, 9), 3)),
+                                           ("instance_method", ("S", "instance_method", [("generate_argparse_parser", L("float", (), 1.5))]))])),
+               ("save", L("int", (None, None), 3)),
+               ("load", ("S", "load", [("dumps", L("bool", (), False)), ("to_tree", L("str", (), "t")),
+                                       ("validate", ("S", "validate", [("loads", L("int", (None, None), 2))]))])),
+               ("load_tree", ("T", ("S", "", [("n", L("int", (None, None), 1))])))]),
     ("S", "root", [("x", L("int", (None, None), 1)), ("s", ("S", "s", [("y", L("int", (None, None), 2))]))]),
     ("S", "root", [("root", ("S", "root", [("x", L("int", (None, None), 1))])), ("flag", L("bool", (), True))]),
 ]
@@ -342,7 +399,7 @@ def generate(rng, tier):
     sub1 = FIXED[1][2][2][1]
     cases.append(make_case(det, sub1, [""], "argv"))
     cases.append(make_case(det, sub1[2][1][1], ["", "sub"], "argv"))
-    cases.append(make_case(det, FIXED[6][2][1][1], ["root"], "empty"))
+    cases.append(make_case(det, FIXED[8][2][1][1], ["root"], "empty"))
     n = 1000 if tier == "quick" else 12000
     while len(cases) < n:
         r = rng.random()
@@ -382,15 +439,25 @@ def _err(e):
 def build_impl(node, own=None, all_schemas=None):
     """node -> Schema (fields added through attribute assignment, the documented way)"""
     import cincoconfig as cc
-    s = cc.Schema(key=own or None)
+    o = opts_of_node(node)
+    if "env" in o:
+        s = cc.Schema(key=own or None, env=o["env"])      # created explicitly with an env setting
+    else:
+        s = cc.Schema(key=own or None)
     all_schemas.append(s)
+
+    def register(key, f):
+        if o.get("via") == "item":
+            s[key] = f
+        else:
+            setattr(s, key, f)
     for key, ch in node[2]:
         if ch[0] == "S":
             sub = build_impl(ch, None, all_schemas)
-            setattr(s, key, sub)
+            register(key, sub)
         elif ch[0] == "T":
             t = build_impl(ch[1], None, all_schemas)
-            setattr(s, key, cc.make_type(t, "TT"))
+            register(key, cc.make_type(t, "TT"))
         else:
             _, kind, params, default = ch
             if kind == "str":
@@ -412,7 +479,7 @@ def build_impl(node, own=None, all_schemas=None):
                 f = cc.VirtualField(lambda cfg, _v=val: _v, (lambda cfg, v: None) if params[1] else None)
             else:
                 f = cc.InstanceMethodField(lambda cfg: "hi")
-            setattr(s, key, f)
+            register(key, f)
     return s
 
 
@@ -456,8 +523,11 @@ def segs(p):
 
 
 def impl(c):
+    from unittest import mock
     try:
-        return _impl(c)
+        # env=True / env="X" schemas give their fields environment variable names: run in an empty environment
+        with mock.patch.dict(os.environ, {}, clear=True):
+            return _impl(c)
     except Exception as e:  # noqa
         return ("harness-error", type(e).__name__, str(e)[:80])
 
@@ -523,7 +593,11 @@ def _impl(c):
         except Exception as e:  # noqa
             return _err(e), None
 
+    reserved = set(c.get("reserved", []))
+
     def getattr_chain(cfg, p):
+        if any(k in reserved for k in segs(p)):
+            return "reserved"      # config.save is Config.save, not the field: outside C16's domain (tagged)
         v = cfg
         try:
             for part in segs(p):
@@ -538,11 +612,11 @@ def _impl(c):
         gi = getitem(c0, p)[0]
         ga = getattr_chain(c0, p)
         ident = True
-        if gi[0] == "ok" and ga[0] == "ok" and isinstance(gi[1], Config):
+        if gi[0] == "ok" and ga != "reserved" and ga[0] == "ok" and isinstance(gi[1], Config):
             ident = gi[1] is ga[1]
         same.append(ident)
         gi = (gi[0], render(gi[1])) if gi[0] == "ok" else gi
-        ga = (ga[0], render(ga[1])) if ga[0] == "ok" else ga
+        ga = (ga[0], render(ga[1])) if ga != "reserved" and ga[0] == "ok" else ga
         o_names.append((look(p, f), cc.item_ref_path(f), p in c0, gi, ga))
     c["_ident"] = same
     o_extra = []
@@ -550,7 +624,7 @@ def _impl(c):
         gi = getitem(c0, p)[0]
         ga = getattr_chain(c0, p)
         gi = (gi[0], render(gi[1])) if gi[0] == "ok" else gi
-        ga = (ga[0], render(ga[1])) if ga[0] == "ok" else ga
+        ga = (ga[0], render(ga[1])) if ga != "reserved" and ga[0] == "ok" else ga
         o_extra.append((look(p, None), p in c0, gi, ga))
 
     try:
@@ -590,9 +664,12 @@ def _impl(c):
         try:
             obj = c2
             parts = segs(p)
-            for part in parts[:-1]:
-                obj = getattr(obj, part)
-            setattr(obj, parts[-1], x)
+            if any(k in reserved for k in parts[:-1]):
+                c2[p] = x          # attribute walk through a Config member name: not attempted (tagged)
+            else:
+                for part in parts[:-1]:
+                    obj = getattr(obj, part)
+                setattr(obj, parts[-1], x)
             o2 = "ok"
         except Exception as e:  # noqa
             o2 = _err(e)
@@ -656,7 +733,10 @@ def oracle(c, obs):
             bad.append("refpath: field enumerated as %r reports reference path %r" % (p, ref))
         if mem is not True:
             bad.append("%smembership: %r in config is False" % ("F27:" if vm else "", p))
-        if gi != ga or gi[0] != "ok" or not ident:
+        if ga == "reserved":
+            if gi[0] != "ok" and not vm:
+                bad.append("getitem: config[%r] -> %r" % (p, gi[:1]))
+        elif gi != ga or gi[0] != "ok" or not ident:
             bad.append("%sgetitem: config[%r] -> %r but chained attribute access -> %r" % ("F27:" if vm else "", p, gi[:1], ga[:1]))
     # (2) dotted assignment = chained attribute assignment
     for (p, x), (o1, o2) in zip(c["sets"], outs):
@@ -737,6 +817,21 @@ def tags(c, obs):
         t.add("ignore=" + c["ignore_form"])
     if c["sets"]:
         t.add("prior-history")
+    if c.get("reserved"):
+        t.add("config-member-key")
+    sp = set(public_names()[0])
+    if any(k in sp for p, _ in en for k in p.split(".")):
+        t.add("schema-member-key")
+
+    def envs(n):
+        out = set()
+        if n[0] == "S":
+            if len(n) > 3:
+                out.add("env=%r/%s" % (n[3].get("env"), n[3].get("via")))
+            for _, ch in n[2]:
+                out |= envs(ch)
+        return out
+    t |= envs(c["schema"])
     if isinstance(obs, tuple) and len(obs) == 10:
         t.add("override=" + (obs[8] if isinstance(obs[8], str) else (obs[8][1] if obs[8] else "none")))
     return t
